@@ -141,7 +141,7 @@ impl<'a> GroupResource<'a> {
 			let mut icon_entry = [0u32; 4];
 			dataview::bytes_mut(&mut icon_entry)[..14].copy_from_slice(dataview::bytes(entry));
 			icon_entry[3] = image_offset;
-			image_offset += entry.bytes_in_resource();
+			image_offset = image_offset.wrapping_add(entry.bytes_in_resource());
 			dest.write(dataview::bytes(&icon_entry))?;
 		}
 		// Append the bytes for every entry
